@@ -17,7 +17,7 @@ func worldMarkets() *World {
 	w := &World{Name: "W5", StakePeriod: 12, ExpirePeriod: 6, InitialHeight: 301}
 	for i := 1; i <= 5; i++ {
 		w.Accounts = append(w.Accounts, GenAccount{Name: fmt.Sprintf("a%d", i), Bal: map[string]string{
-			"BIP": "1000000u", "CRRTEN": "20000u", "CRRFIF": "50000u", "CRRHUN": "30000u", "TOKA": "400000u", "TOKB": "400000u"}})
+			"BIP": "1000000u", "CRRTEN": "20000u", "CRRFIF": "50000u", "CRRHUN": "30000u", "TOKA": "400000u", "TOKB": "400000u", "CHEAP": "20000u"}})
 	}
 	w.Accounts = append(w.Accounts, GenAccount{Name: "o1", Bal: map[string]string{"BIP": "10000u"}})
 	w.Candidates = []GenCandidate{{Name: "v1", Owner: "o1", Reward: "o1", Control: "o1", Commission: 10, Validator: true,
@@ -28,6 +28,8 @@ func worldMarkets() *World {
 		{Symbol: "CRRHUN", Crr: 100, Reserve: "150000u", Max: "10000000u", Owner: "a3"},
 		{Symbol: "TOKA", Crr: 0, Max: "100000000u", Owner: "a1", Mintable: true, Burnable: true},
 		{Symbol: "TOKB", Crr: 0, Max: "100000000u", Owner: "a2", Mintable: false, Burnable: true},
+		// a coin worth a tenth of the base coin, 100 units below its maximum supply (supply-limit checks must count coins, not base coin)
+		{Symbol: "CHEAP", Crr: 100, Reserve: "10000u", Max: "100100u", Owner: "a4"},
 	}
 	w.Pools = []GenPool{
 		{Coin0: "BIP", Coin1: "TOKA", Reserve0: "100000u", Reserve1: "200000u", Holders: map[string]string{"a1": "100000u"},
